@@ -86,12 +86,14 @@ Definition cfg_of (n : nat) : cfg :=
   | 1 => cfg_old_catch_pops
   | 2 => cfg_old_break
   | 3 => cfg_flag_at_sites_but_native
+  | 4 => cfg_break_pops_one
   | _ => cfg_today
   end.
 
 (* the configuration the translator read from the sources, handed over by the plug-in (gen/manifest.json) *)
-Definition cfg_flags (cp bp rj : bool) (mode : nat) (ts vs ns : bool) : cfg :=
-  {| catch_emits_pop := cp; break_pops_handlers := bp; return_uses_jump_finally := rj;
+Definition cfg_flags (cp : bool) (bp : nat) (rj : bool) (mode : nat) (ts vs ns : bool) : cfg :=
+  {| catch_emits_pop := cp; break_pops := match bp with 0 => PopsNone | 1 => PopsOne | _ => PopsAll end;
+     return_uses_jump_finally := rj;
      unwind_he := match mode with 0 => HeAssign | 1 => HeAssignNeg | 2 => HeClearOnCatch | _ => HeKeep end;
      throw_sets_he := ts; vmfail_sets_he := vs; nativefail_sets_he := ns |}.
 
